@@ -532,7 +532,98 @@ func (c *Ctx) rulesLevelImport(prop string, s *Slashing) {
 		{"att", s.AttState, map[string]string{s.AttSourceField: "HighestAttestedSourceEpoch", s.AttTargetField: "HighestAttestedTargetEpoch"}},
 		{"prop", s.PropState, map[string]string{s.PropSlotField: "HighestProposedSlot"}},
 	}
-	stores := Calls(F, func(ci ssa.CallInstruction) bool { return ci.Common().StaticCallee() == s.StoreStore })
+	// store sites: direct calls of the store's Store, or calls of a package helper that wraps exactly one such call
+	// (value and action passed as parameters, nil error only if that Store succeeded)
+	type storeSite struct {
+		ci       ssa.CallInstruction // the call in F
+		val      ssa.Value           // the value stored, in F's frame
+		helper   *ssa.Function       // nil for a direct call
+		helperAc ssa.Value           // action value set into key[48] inside the helper, in F's frame (nil if none)
+	}
+	var sites []storeSite
+	for _, ci := range Calls(F, func(ci ssa.CallInstruction) bool {
+		f := ci.Common().StaticCallee()
+		return f != nil && (f == s.StoreStore || (prog.PkgPathOf(f) == s.Pkg.Pkg.Path() && f.Blocks != nil && f != F))
+	}) {
+		f := ci.Common().StaticCallee()
+		if f == s.StoreStore {
+			sites = append(sites, storeSite{ci: ci, val: ci.Common().Args[3]})
+			continue
+		}
+		hs := Calls(f, func(c2 ssa.CallInstruction) bool { return c2.Common().StaticCallee() == s.StoreStore })
+		if len(hs) == 0 {
+			continue
+		}
+		if len(hs) != 1 {
+			c.R.Unknown(rule, Fn(f), c.Pos(ci), "an import helper calls the store more than once")
+			continue
+		}
+		hst := hs[0]
+		argOf := func(v ssa.Value) ssa.Value {
+			if q, ok := v.(*ssa.Parameter); ok {
+				for i, qq := range f.Params {
+					if qq == q && i < len(ci.Common().Args) {
+						return ci.Common().Args[i]
+					}
+				}
+			}
+			return nil
+		}
+		val := argOf(hst.Common().Args[3])
+		if val == nil {
+			c.R.Unknown(rule, Fn(f), c.Pos(hst), "the import helper does not store its own value parameter")
+			continue
+		}
+		if esc, _ := NilErrorNeeds(f, func(c2 ssa.CallInstruction) bool { return c2 == hst }); len(esc) > 0 {
+			c.R.Fail(rule, Fn(f)+":error", c.Pos(esc[0].Ret), "the import helper "+esc[0].Why+" although the store failed", "nil error only if Store succeeded", an.PathString(c.Pos, esc[0].Path))
+			continue
+		}
+		st := storeSite{ci: ci, val: val, helper: f}
+		// key[48] = action[0] inside the helper, on the array whose slice is stored under
+		keyBase := sliceRoot(hst.Common().Args[2])
+		n48 := 0
+		for _, b := range f.Blocks {
+			for _, ins := range b.Instrs {
+				s2, ok := ins.(*ssa.Store)
+				if !ok {
+					continue
+				}
+				ia, ok := s2.Addr.(*ssa.IndexAddr)
+				if !ok {
+					continue
+				}
+				if iv, ok := constIntOf(ia.Index); !ok || iv != 48 {
+					continue
+				}
+				n48++
+				root, idx, ok := elemLoadAny(s2.Val)
+				if !ok || !an.IsConstInt(idx, 0) || ia.X != keyBase || !(s2.Block() == hst.Block() || an.Reachable(an.After(s2), hst.(ssa.Instruction))) {
+					continue
+				}
+				if a := argOf(root); a != nil {
+					st.helperAc = a
+				} else {
+					st.helperAc = root
+				}
+			}
+		}
+		if n48 > 1 {
+			st.helperAc = nil
+		}
+		sites = append(sites, st)
+	}
+	var stores []ssa.CallInstruction
+	for _, st := range sites {
+		stores = append(stores, st.ci)
+	}
+	siteOf := func(ci ssa.CallInstruction) storeSite {
+		for _, st := range sites {
+			if st.ci == ci {
+				return st
+			}
+		}
+		return storeSite{}
+	}
 	c.R.Floor(rule, "store calls in the rules-level import", len(stores), 2)
 	// action globals by kind
 	actionOf := map[string]*ssa.Global{}
@@ -552,7 +643,7 @@ func (c *Ctx) rulesLevelImport(prop string, s *Slashing) {
 	for _, w := range wants {
 		var st ssa.CallInstruction
 		for _, ci := range stores {
-			if call, ok := ci.Common().Args[3].(*ssa.Call); ok {
+			if call, ok := siteOf(ci).val.(*ssa.Call); ok {
 				if f := call.Call.StaticCallee(); f != nil && f.Signature.Recv() != nil && namedOf(f.Signature.Recv().Type()) == w.state {
 					st = ci
 				}
@@ -562,7 +653,7 @@ func (c *Ctx) rulesLevelImport(prop string, s *Slashing) {
 			c.R.Fail(rule, Fn(F)+":"+w.kind, c.P.FuncPos(F), "the import does not store "+w.kind+" records with the record encoder", "Store(key, state.Encode())", nil)
 			continue
 		}
-		enc := st.Common().Args[3].(*ssa.Call)
+		enc := siteOf(st).val.(*ssa.Call)
 		obj, _ := enc.Call.Args[0].(*ssa.Alloc)
 		if obj == nil {
 			c.R.Unknown(rule, Fn(F)+":"+w.kind, c.Pos(st), "the state encoded is not a fresh object")
@@ -591,7 +682,14 @@ func (c *Ctx) rulesLevelImport(prop string, s *Slashing) {
 		}
 		// key byte 48 = action[0] of the matching kind, stored before the Store call on the path
 		okKey := false
+		if site := siteOf(st); site.helper != nil {
+			// the helper sets the action byte itself, from the action value it is given (or a fixed one)
+			okKey = site.helperAc != nil && isLoadOfGlobal(site.helperAc, actionOf[w.kind])
+		}
 		for _, b := range F.Blocks {
+			if siteOf(st).helper != nil {
+				break
+			}
 			for _, ins := range b.Instrs {
 				s2, ok := ins.(*ssa.Store)
 				if !ok {
